@@ -9,7 +9,7 @@ import subprocess
 
 def run(pid, tier, seed, ctx):
     HARNESS = ctx["HARNESS"]
-    nproc = 4 if tier == "quick" else 16
+    nproc = 6 if tier == "quick" else 16
     procs = []
     for k in range(nproc):
         env = dict(ctx["ENV"])
